@@ -203,6 +203,9 @@ M("c02.aead.gcm.lens", "C02", CIPH + "_mode_gcm.py", "        self._update(long_
 M("c01.aead.siv.nonce.order", "C01", CIPH + "_mode_siv.py", "            self._kdf.update(self.nonce)\n        self._kdf.update(plaintext)", "            pass\n        self._kdf.update(plaintext)\n        if hasattr(self, 'nonce'):\n            self._kdf.update(self.nonce)", "K-pw|aead.siv")
 M("c02.aead.ccm.s0", "C02", CIPH + "_mode_ccm.py", "        self._s_0 = self._cipher.encrypt(b'\\x00' * 16)", "        self._s_0 = self._cipher.encrypt(b'\\x00' * 16)\n        self._cipher.encrypt(b'\\x00' * 16)", "K-pw|aead.ccm")
 M("c09.aead.gcm.cache", "C09", CIPH + "_mode_gcm.py", "        self._msg_len += len(plaintext)", "        self._msg_len = len(plaintext)", "SEG|aead.gcm")
+M("c02.aead.ocb.bottom", "C02", CIPH + "_mode_ocb.py", "(64 - bottom_bits), 24)[8:]", "(63 - bottom_bits), 24)[8:]", "K-pw|aead.ocb")
+M("c01.aead.ocb.pendingA", "C01", CIPH + "_mode_ocb.py", "        if self._cache_A:\n            self._update(self._cache_A, len(self._cache_A))\n            self._cache_A = b\"\"\n", "", "K-pw|aead.ocb")
+M("c09.aead.ocb.cacheP", "C09", CIPH + "_mode_ocb.py", "        self._cache_P = _copy_bytes(trans_len, None, in_data)\n", "        self._cache_P = _copy_bytes(trans_len + 1, None, in_data) if trans_len == 32 else _copy_bytes(trans_len, None, in_data)\n", "SEG|aead.ocb")
 OCBC = "src/raw_ocb.c"
 M("c02.ocb.double.const", "C02", OCBC, "(carry & 0x87)", "(carry & 0x86)", "K-pw|c|ocb.crypt")
 M("c01.ocb.checksum.pad", "C01", OCBC, "        state->checksum[in_len] ^= 0x80;", "        state->checksum[in_len] |= 0x80;", "K-pw|c|ocb.crypt")
